@@ -1,13 +1,16 @@
 ---- MODULE CacheHistGen ----
 (* G phase for C23: all histories of at most MaxLen operations over                                    *)
-(*   run(text, flag)   one generator run on model text t1 / t2 with or without --cache_model           *)
+(*   run(text, flag)   one generator run on one of the model texts with or without --cache_model        *)
 (*   evict(text)       the OS temp cleaner removes the published entry of that text                    *)
 (* (an edit of the model between runs is the switch from one text to the other).                       *)
 EXTENDS Naturals, Sequences, FiniteSets, SequencesExt, Json, IOUtils, TLC
-CONSTANT MaxLen
-TextIds == {"t1", "t2"}
+CONSTANTS MaxLen, NTexts
+\* t1: the model; t2: an edited model; t3..: near-identical variants of t1 (leading blank line, trailing blank
+\* lines, CRLF, a trailing space) which a careless cache-key derivation could conflate with t1
+TextIds == {"t" \o ToString(k) : k \in 1..NTexts}
+EvictIds == {"t1", "t3"} \cap TextIds
 Ops == {[a |-> "run", text |-> t, flag |-> f] : t \in TextIds, f \in BOOLEAN}
-       \cup {[a |-> "evict", text |-> t, flag |-> FALSE] : t \in TextIds}
+       \cup {[a |-> "evict", text |-> t, flag |-> FALSE] : t \in EvictIds}
 Hists == UNION {[1..k -> Ops] : k \in 1..MaxLen}
 \* an eviction is only interesting after some cache-enabled run; drop histories that start with one or end with one
 Useful(h) == h[1].a = "run" /\ h[Len(h)].a = "run"
